@@ -395,6 +395,12 @@ def unknownPaths (s : Session) (fs : FTree) : List Path :=
 
 /-! ## §3b the project root (`config_utils.find_project_root_and_config`) -/
 
+/-- Whether the file `cfg` is a pytask configuration: among the tables it contains (`tables`: file ↦ dotted path of a
+table, for every table of every pyproject.toml) there is `tool.pytask.ini_options` itself or a table below it —
+`read_config` subscripts every level and a `KeyError` means "not a pytask configuration". -/
+def configSectionPresent (tables : List (Path × List String)) (cfg : Path) : Bool :=
+  tables.any fun t => t.1 == cfg && Generated.configSection.isPrefixOf t.2
+
 /-- One stop rule of the upward search at directory `d`: `some (root, config)` when it fires. `hasSection cfg` says
 that the file `cfg` parses and has the `tool.pytask.ini_options` section (an input of the model). -/
 def stopRule (fs : FTree) (hasSection : Path → Bool) (d : Path) (rule : String × String) : Option (Path × Option Path) :=
